@@ -21,6 +21,9 @@ CLAIMS = {
     "C05": ("spec/CMakeLex.tla, CMakeGen.tla, MC_C05.tla, TraceLex.tla",
             "The generated lexer is modelled as the step machine ANTLR runs (parallel rules by derivatives, last-accept register, rule priority, non-greedy stop, EOF symbol, error recovery); TLC builds files from the productions of cmake-language(7) with boundaries known by construction and checks RefAgree; every file is run through the real lexer/parser/Documenter (acceptance, command sequence, argument texts and positions); token streams and error spans of the real lexer on fixtures, random modules, noise strings and the modules shipped with CMake are validated character step by character step by TLC (TraceLex.tla); corpus modules that CMake itself parses must be processed cleanly.",
             "class alphabet; bracket levels {0,1,2} in generation ({0,1,2,4,40,70,71} for the corpus); legacy constructs and BOM out of scope", "4 C05"),
+    "C06": ("spec/CMakeLex.tla, CMakeGen.tla (InjectFault), MC_C05.tla",
+            "TLC builds valid files from the reference productions, injects one fault string at every position and predicts with the lexer/parser model whether the fault is noticed; every faulted file goes through the real cminx.main as a single input and inside a directory: where the reference rejects the file (cmake -P parse error, or backslash before an alphanumeric per the manual) an error, non-zero status and no .rst are demanded, and a page must never be written when the real lexer skipped characters.",
+            "faults inside comments / bracket arguments and backslash-newline not judged; single faults (pairs via -simulate not yet); known finding K3", "4 C06"),
     "C08": ("spec/AggOps.tla, Aggregator.tla, MC_C08a/b.tla, TraceAggregator.tla",
             "TLC checks C08_DocStemming / C08_OffRemoves on the design (Dev={}) for every flag combination of the kinds that occur; behaviours from the model of the code as it is (Dev=CurrentDev) are replayed under their flags and under defaults and the doccomment-stemming entries compared; known finding K1 is reported as KNOWN-FINDING only for cases matching its signature and the Impl prediction.",
             "flag lattice covered per configuration (16 + 64 combinations) and by random flags in binding B, not all 1024 per program", "4 C08"),
